@@ -366,6 +366,12 @@ func (a *Agent) gatherCandidatesLocal(ctx context.Context, networkTypes []Networ
 			}
 
 			for network := range networks {
+				// Only gather the (transport, address family) combinations that are enabled.
+				if candidateNetworkType, ntErr := determineNetworkType(network, addr); ntErr != nil ||
+					!slices.Contains(networkTypes, candidateNetworkType) {
+					continue
+				}
+
 				type connAndPort struct {
 					conn net.PacketConn
 					port int
